@@ -1,241 +1,393 @@
-(** Facts about the SCAN family model (Model/Scan.v): what one call returns, progress of the
-    cursor, static completeness of a full iteration, soundness, and completeness under
-    modifications that leave the part of the sorted list before the cursor unchanged. *)
-From Coq Require Import Sorting.Sorted.
+(** Facts about the SCAN family model (Model/Scan.v, engine.rs after e3de5de): a call returns
+    exactly the elements of one interval of hash values that pass the filter; cursors strictly
+    increase; a complete iteration over ANY sequence of collections returns every element that
+    is present at every call; over an unchanged collection it returns each matching element once.
+    Everything is proved for an arbitrary hash function [hf] (ties included); the engine
+    functions instantiate it with fnv1a. *)
+From Coq Require Import Sorting.Sorted Sorting.Permutation.
 From Ferrous Require Import Base.Bytes Model.Resp Model.Types Model.Glob Model.Strings Model.Scan
   Proofs.BytesFacts.
 Open Scope Z_scope.
 
-(** ---- one call ---- *)
-Lemma scan_walk_spec {A} (inc : A -> bool) : forall rest e m limE limM pos,
-  exists j : nat, (j <= length rest)%nat /\
-    scan_walk inc rest e m limE limM pos = (pos + Z.of_nat j, filter inc (firstn j rest)) /\
-    (rest <> [] -> e < limE -> m < limM -> (1 <= j)%nat).
+Section Core.
+Context {A : Type} (hf : A -> Z) (keyof : A -> bytes).
+Hypothesis hf_nonneg : forall x, 0 <= hf x.
+
+Definition HSorted (l : list A) : Prop := StronglySorted (fun x y => hf x <= hf y) l.
+
+(** ---- sorting by hash ---- *)
+Lemma hleb_true x y : hleb hf keyof x y = true -> hf x <= hf y.
+Proof. unfold hleb. intros H. apply orb_true_iff in H. destruct H as [H|H]; [lia|]. apply andb_prop in H. lia. Qed.
+Lemma hleb_false x y : hleb hf keyof x y = false -> hf y <= hf x.
+Proof. unfold hleb. intros H. apply orb_false_iff in H. destruct H as [H _]. lia. Qed.
+
+Lemma In_hinsert x y l : In x (hinsert hf keyof y l) <-> x = y \/ In x l.
 Proof.
-  induction rest as [|x r IH]; intros e m limE limM pos.
-  - exists 0%nat. simpl. split; [lia|]. split; [f_equal; lia | congruence].
-  - cbn [scan_walk].
-    destruct ((e <? limE) && (m <? limM)) eqn:C.
-    + destruct (inc x) eqn:I.
-      * destruct (IH (e + 1) (m + 1) limE limM (pos + 1)) as [j [L [E _]]].
-        exists (S j). rewrite E. split; [simpl; lia|]. split; [|lia].
-        cbn [firstn filter]. rewrite I. f_equal. lia.
-      * destruct (IH (e + 1) m limE limM (pos + 1)) as [j [L [E _]]].
-        exists (S j). rewrite E. split; [simpl; lia|]. split; [|lia].
-        cbn [firstn filter]. rewrite I. f_equal. lia.
-    + exists 0%nat. split; [lia|]. split; [simpl; f_equal; lia|].
-      intros _ H1 H2. apply andb_false_iff in C. destruct C as [C|C]; apply Z.ltb_ge in C; lia.
+  induction l as [|z l IH]; simpl; [intuition congruence|].
+  destruct (hleb hf keyof y z); simpl; [intuition congruence|]. rewrite IH. intuition congruence.
+Qed.
+Lemma In_hsort x l : In x (hsort hf keyof l) <-> In x l.
+Proof.
+  unfold hsort. induction l as [|y l IH]; simpl; [tauto|]. rewrite In_hinsert, IH. intuition congruence.
+Qed.
+Lemma hinsert_perm y l : Permutation (hinsert hf keyof y l) (y :: l).
+Proof.
+  induction l as [|z l IH]; simpl; [reflexivity|].
+  destruct (hleb hf keyof y z); [reflexivity|]. rewrite IH. apply perm_swap.
+Qed.
+Lemma hsort_perm l : Permutation (hsort hf keyof l) l.
+Proof.
+  unfold hsort. induction l as [|y l IH]; simpl; [reflexivity|]. rewrite hinsert_perm. constructor. exact IH.
+Qed.
+Lemma hinsert_sorted y l : HSorted l -> HSorted (hinsert hf keyof y l).
+Proof.
+  induction 1 as [|z r S IH F]; simpl; [constructor; constructor|].
+  destruct (hleb hf keyof y z) eqn:E.
+  - apply hleb_true in E. constructor; [constructor; assumption|]. constructor; [exact E|].
+    rewrite Forall_forall in *. intros w Hw. specialize (F w Hw). lia.
+  - apply hleb_false in E. constructor; [exact IH|].
+    rewrite Forall_forall in *. intros w Hw. apply In_hinsert in Hw. destruct Hw as [->|Hw]; [exact E | apply F; exact Hw].
+Qed.
+Lemma hsort_sorted l : HSorted (hsort hf keyof l).
+Proof. unfold hsort. induction l as [|y l IH]; simpl; [constructor | apply hinsert_sorted; exact IH]. Qed.
+
+(** ---- the start position ---- *)
+Lemma from_hash_split c l : HSorted l ->
+  exists pre, l = pre ++ from_hash hf c l /\ (forall x, In x pre -> hf x < c) /\
+              (forall x, In x (from_hash hf c l) -> c <= hf x).
+Proof.
+  induction 1 as [|y r S IH F]; simpl.
+  - exists []. repeat split; simpl; tauto.
+  - destruct (Z.ltb_spec (hf y) c) as [L|L].
+    + destruct IH as [pre [E [P Q]]]. exists (y :: pre). split; [simpl; f_equal; exact E|]. split; [|exact Q].
+      intros x [->|Hx]; [exact L | apply P; exact Hx].
+    + exists []. split; [reflexivity|]. split; [simpl; tauto|].
+      rewrite Forall_forall in F. intros x [->|Hx]; [exact L | specialize (F x Hx); lia].
+Qed.
+Lemma In_from_hash c l x : HSorted l -> (In x (from_hash hf c l) <-> In x l /\ c <= hf x).
+Proof.
+  intros S. destruct (from_hash_split c l S) as [pre [E [P Q]]]. split.
+  - intros H. split; [rewrite E; apply in_or_app; auto | apply Q; exact H].
+  - intros [H L]. rewrite E in H. apply in_app_or in H. destruct H as [H|H]; [specialize (P x H); lia | exact H].
+Qed.
+Lemma from_hash_sorted c l : HSorted l -> HSorted (from_hash hf c l).
+Proof.
+  induction 1 as [|y r S IH F]; simpl; [constructor|].
+  destruct (hf y <? c); [exact IH | constructor; assumption].
+Qed.
+Lemma from_hash_length c l : (length (from_hash hf c l) <= length l)%nat.
+Proof. induction l as [|y r IH]; simpl; [lia|]. destruct (hf y <? c); simpl; lia. Qed.
+
+(** ---- the page loop ---- *)
+Definition has_room (e m limE limM : Z) : bool := (e <? limE) && (m <? limM).
+Definition last_hash (taken : list A) (prev : option Z) : option Z :=
+  match rev taken with x :: _ => Some (hf x) | [] => prev end.
+
+Lemma last_hash_cons x taken prev : last_hash (x :: taken) prev = last_hash taken (Some (hf x)).
+Proof.
+  unfold last_hash. simpl. destruct (rev taken) as [|z l] eqn:E; simpl; reflexivity.
 Qed.
 
+Lemma page_walk_spec (inc : A -> bool) : forall rest prev e m limE limM res left,
+  page_walk hf inc rest prev e m limE limM = (res, left) ->
+  exists taken, rest = taken ++ left /\ res = filter inc taken /\
+    (forall y l', left = y :: l' -> last_hash taken prev <> Some (hf y) /\
+                                    (taken = [] -> has_room e m limE limM = false)).
+Proof.
+  induction rest as [|x r IH]; intros prev e m limE limM res left H; simpl in H.
+  - inversion H; subst. exists []. repeat split; try reflexivity. discriminate. discriminate.
+  - fold (has_room e m limE limM) in H.
+    destruct (has_room e m limE limM || match prev with Some h => hf x =? h | None => false end) eqn:C.
+    + destruct (page_walk hf inc r (Some (hf x)) (e + 1) (if inc x then m + 1 else m) limE limM) as [res1 left1] eqn:E.
+      inversion H; subst. destruct (IH _ _ _ _ _ _ _ E) as [taken [E1 [E2 E3]]].
+      exists (x :: taken). split; [simpl; f_equal; exact E1|]. split.
+      * simpl. destruct (inc x); rewrite E2; reflexivity.
+      * intros y l' Hl. destruct (E3 y l' Hl) as [N _]. rewrite last_hash_cons. split; [exact N | discriminate].
+    + inversion H; subst. exists []. split; [reflexivity|]. split; [reflexivity|].
+      intros y l' Hl. inversion Hl; subst. apply orb_false_iff in C. destruct C as [C1 C2].
+      split; [|intros _; exact C1]. unfold last_hash. simpl.
+      destruct prev as [h|]; [|discriminate]. intros X. inversion X. apply Z.eqb_neq in C2. lia.
+Qed.
+
+Lemma last_hash_in taken prev h : taken <> [] -> last_hash taken prev = Some h -> exists x, In x taken /\ hf x = h.
+Proof.
+  intros N. unfold last_hash. destruct (rev taken) as [|z l] eqn:E.
+  - exfalso. apply N. apply (f_equal (@rev A)) in E. rewrite rev_involutive in E. exact E.
+  - intros H. inversion H. exists z. split; [|reflexivity]. apply in_rev. rewrite E. simpl; auto.
+Qed.
+Lemma last_hash_some taken prev : taken <> [] -> exists h, last_hash taken prev = Some h.
+Proof.
+  intros N. unfold last_hash. destruct (rev taken) as [|z l] eqn:E; [|eauto].
+  exfalso. apply N. apply (f_equal (@rev A)) in E. rewrite rev_involutive in E. exact E.
+Qed.
+
+Lemma sorted_app_le l1 l2 : HSorted (l1 ++ l2) -> forall x y, In x l1 -> In y l2 -> hf x <= hf y.
+Proof.
+  induction l1 as [|z l1 IH]; intros S x y Hx Hy; [contradiction|].
+  simpl in S. inversion S as [|? ? S' F]; subst. destruct Hx as [->|Hx].
+  - rewrite Forall_forall in F. apply F. apply in_or_app. auto.
+  - eapply IH; eassumption.
+Qed.
+Lemma sorted_app_r l1 l2 : HSorted (l1 ++ l2) -> HSorted l2.
+Proof. induction l1 as [|z l1 IH]; intros S; [exact S|]. simpl in S. inversion S; subst. auto. Qed.
+
+(** ---- one call ---- *)
 Lemma scan_limit_pos count : 0 <= count -> 1 <= scan_limit count.
 Proof. intros H. unfold scan_limit. destruct (Z.eqb_spec count 0); lia. Qed.
 
-Lemma len_zskipn {A} (l : list A) c : 0 <= c -> c <= len l -> len (zskipn c l) = len l - c.
-Proof. intros H1 H2. unfold len, zskipn in *. rewrite skipn_length. lia. Qed.
-
-(** what a call returns: either the cursor is at or beyond the end (reply: cursor 0, nothing),
-    or it examines j >= 1 further items and returns those of them that match *)
-Lemma scan_core_spec {A} (keyof : A -> bytes) items cursor count pat :
-  0 <= cursor -> 0 <= count ->
-  (len items <= cursor /\ scan_core keyof items cursor count pat = (0, [])) \/
-  (cursor < len items /\ exists j : nat, (1 <= j)%nat /\ cursor + Z.of_nat j <= len items /\
-     scan_core keyof items cursor count pat =
-       ((if len items <=? cursor + Z.of_nat j then 0 else cursor + Z.of_nat j),
-        filter (scan_inc keyof pat) (firstn j (zskipn cursor items)))).
+(** what a call returns: with (next, res), every element of the collection that passes the filter
+    and whose hash lies in [cursor, next) - [cursor, infinity) when next = 0 - and nothing else;
+    next is 0 or the hash of an element, strictly above the cursor; and the list of elements not
+    yet covered is exactly the start of the next call on the same collection *)
+Lemma scan_core_spec items cursor count pat next res :
+  0 <= count -> scan_core hf keyof items cursor count pat = (next, res) ->
+  let sorted := hsort hf keyof items in
+  exists taken left,
+    from_hash hf cursor sorted = taken ++ left /\ res = filter (scan_inc keyof pat) taken /\
+    (left = [] -> next = 0) /\
+    (forall y l', left = y :: l' -> next = hf y /\ taken <> [] /\ (forall x, In x taken -> hf x < hf y)) /\
+    from_hash hf next sorted = (if next =? 0 then sorted else left).
 Proof.
-  intros Hc Hn. unfold scan_core.
-  destruct (Z.leb_spec (len items) cursor) as [L|L]; [left; auto|]. right. split; [exact L|].
-  pose proof (scan_limit_pos count Hn) as P.
-  destruct (scan_walk_spec (scan_inc keyof pat) (zskipn cursor items) 0 0 (scan_limit count * 10)
-              (scan_limit count) cursor) as [j [Lj [E Pj]]].
-  exists j. rewrite E.
-  assert (LS : len (zskipn cursor items) = len items - cursor) by (apply len_zskipn; lia).
-  split; [|split; [|reflexivity]].
-  - apply Pj; [|lia|lia]. intros HZ. rewrite HZ in LS. unfold len in *. simpl in LS. lia.
-  - unfold len in *. lia.
+  intros Hc H sorted. unfold scan_core in H. fold sorted in H.
+  pose proof (hsort_sorted items) as SS. fold sorted in SS.
+  destruct (from_hash_split cursor sorted SS) as [pre [Epre [Ppre Qrest]]].
+  pose proof (from_hash_sorted cursor sorted SS) as SR.
+  assert (F0 : from_hash hf 0 sorted = sorted).
+  { generalize sorted. clear -hf_nonneg. intros l. induction l as [|y r IH]; simpl; [reflexivity|]. pose proof (hf_nonneg y). destruct (Z.ltb_spec (hf y) 0); [lia | reflexivity]. }
+  destruct (from_hash hf cursor sorted) as [|x0 rest0] eqn:ER.
+  - inversion H; subst. exists [], []. repeat split; try reflexivity; try discriminate. simpl. exact F0.
+  - destruct (page_walk hf (scan_inc keyof pat) (x0 :: rest0) None 0 0 (scan_limit count * 10) (scan_limit count)) as [res1 left] eqn:EP.
+    inversion H; subst. clear H.
+    destruct (page_walk_spec _ _ _ _ _ _ _ _ _ EP) as [taken [E1 [E2 E3]]].
+    exists taken, left. split; [exact E1|]. split; [exact E2|].
+    pose proof (scan_limit_pos count Hc) as LP.
+    assert (Room : has_room 0 0 (scan_limit count * 10) (scan_limit count) = true).
+    { unfold has_room. apply andb_true_intro. split; apply Z.ltb_lt; lia. }
+    split; [intros ->; reflexivity|].
+    assert (Bnd : forall y l', left = y :: l' -> taken <> [] /\ (forall x, In x taken -> hf x < hf y)).
+    { intros y l' Hl. destruct (E3 y l' Hl) as [N T].
+      assert (TN : taken <> []) by (intros ->; rewrite (T eq_refl) in Room; discriminate).
+      split; [exact TN|]. rewrite E1 in SR.
+      destruct (last_hash_some taken None TN) as [h Hh]. destruct (last_hash_in taken None h TN Hh) as [z [Hz Ez]].
+      assert (Lz : hf z <= hf y) by (eapply sorted_app_le; [exact SR | exact Hz | rewrite Hl; simpl; auto]).
+      assert (Nz : hf z <> hf y) by (intros X; apply N; rewrite Hh, <- Ez, X; reflexivity).
+      (* every taken element is below or at the last one: use sortedness of taken itself *)
+      intros x Hx.
+      assert (Lx : hf x <= hf z).
+      { clear -SR Hx Hh Ez TN hf_nonneg. unfold last_hash in Hh.
+        destruct (rev taken) as [|w l] eqn:E; [discriminate|]. inversion Hh as [Hw].
+        assert (taken = rev l ++ [w]) by (rewrite <- (rev_involutive taken), E; reflexivity).
+        rewrite H in SR, Hx. rewrite <- app_assoc in SR.
+        apply in_app_or in Hx. destruct Hx as [Hx|[->|[]]]; [|lia].
+        assert (hf x <= hf w) by (eapply sorted_app_le; [exact SR | exact Hx | simpl; auto]). lia. }
+      lia. }
+    split.
+    { intros y l' Hl. destruct (Bnd y l' Hl) as [B1 B2]. rewrite Hl. auto. }
+    destruct left as [|y l'].
+    + simpl. exact F0.
+    + destruct (Bnd y l' eq_refl) as [B1 B2].
+      assert (Py : 0 < hf y).
+      { destruct taken as [|t0 tk]; [contradiction|]. pose proof (B2 t0 (or_introl eq_refl)). pose proof (hf_nonneg t0). lia. }
+      replace (hf y =? 0) with false by (symmetry; apply Z.eqb_neq; lia).
+      (* sorted = pre ++ taken ++ y :: l', everything before y is below hf y *)
+      rewrite E1 in Qrest. rewrite Epre, E1.
+      destruct taken as [|t0 tk]; [contradiction|].
+      pose proof (Qrest t0 (or_introl eq_refl)) as Q0. pose proof (B2 t0 (or_introl eq_refl)) as B0.
+      assert (G : forall l, (forall x, In x l -> hf x < hf y) -> from_hash hf (hf y) (l ++ y :: l') = y :: l').
+      { clear. induction l as [|z l IH]; intros Hl; simpl.
+        - destruct (Z.ltb_spec (hf y) (hf y)); [lia | reflexivity].
+        - pose proof (Hl z (or_introl eq_refl)). destruct (Z.ltb_spec (hf z) (hf y)); [|lia]. apply IH. intros x Hx. apply Hl. simpl; auto. }
+      rewrite app_assoc. apply G. intros x Hx. apply in_app_or in Hx. destruct Hx as [Hx|Hx]; [|apply B2; exact Hx].
+      specialize (Ppre x Hx). lia.
 Qed.
 
-(** termination measure: the distance to the end of the list strictly decreases *)
-Lemma scan_core_progress {A} (keyof : A -> bytes) items cursor count pat :
-  0 <= cursor -> 0 <= count ->
-  let next := fst (scan_core keyof items cursor count pat) in
-  next = 0 \/ (cursor < next /\ next < len items).
+(** the same, as the property of the result *)
+Lemma scan_core_page items cursor count pat next res :
+  0 <= count -> scan_core hf keyof items cursor count pat = (next, res) ->
+  (forall x, In x res <-> In x items /\ scan_inc keyof pat x = true /\ cursor <= hf x /\ (next = 0 \/ hf x < next)) /\
+  (next = 0 \/ (cursor < next /\ exists y, In y items /\ hf y = next)).
 Proof.
-  intros Hc Hn. destruct (scan_core_spec keyof items cursor count pat Hc Hn) as [[L E]|[L [j [J1 [J2 E]]]]];
-    rewrite E; simpl; [left; reflexivity|].
-  destruct (Z.leb_spec (len items) (cursor + Z.of_nat j)); [left; reflexivity | right; lia].
+  intros Hc H. destruct (scan_core_spec items cursor count pat next res Hc H) as [taken [left [E1 [E2 [E3 [E4 _]]]]]].
+  pose proof (hsort_sorted items) as SS.
+  pose proof (from_hash_sorted cursor _ SS) as SR. rewrite E1 in SR.
+  assert (InR : forall x, In x (taken ++ left) <-> In x items /\ cursor <= hf x).
+  { intros x. rewrite <- E1, (In_from_hash cursor _ x SS), In_hsort. tauto. }
+  split.
+  - intros x. rewrite E2, filter_In. split.
+    + intros [Hx Hi]. assert (X : In x (taken ++ left)) by (apply in_or_app; auto). apply InR in X.
+      destruct X as [X1 X2]. repeat split; try assumption.
+      destruct left as [|y l']; [left; apply E3; reflexivity|]. destruct (E4 y l' eq_refl) as [-> [_ B]]. right. apply B. exact Hx.
+    + intros [X1 [Hi [X2 X3]]]. split; [|exact Hi].
+      assert (X : In x (taken ++ left)) by (apply InR; auto). apply in_app_or in X. destruct X as [X|X]; [exact X|].
+      exfalso. destruct left as [|y l']; [contradiction|]. destruct (E4 y l' eq_refl) as [-> [TN B]].
+      assert (hf y <= hf x) by (destruct X as [->|X]; [lia|]; apply sorted_app_r in SR; inversion SR as [|? ? _ F]; subst; rewrite Forall_forall in F; apply F; exact X).
+      destruct X3 as [Z0|X3]; [|lia].
+      destruct taken as [|t0 tk]; [contradiction|]. pose proof (B t0 (or_introl eq_refl)). pose proof (hf_nonneg t0). lia.
+  - destruct left as [|y l']; [left; apply E3; reflexivity|]. right. destruct (E4 y l' eq_refl) as [-> [TN B]].
+    destruct taken as [|t0 tk]; [contradiction|]. split.
+    + assert (X : In t0 ((t0 :: tk) ++ y :: l')) by (simpl; auto). apply InR in X. pose proof (B t0 (or_introl eq_refl)). lia.
+    + exists y. split; [|reflexivity]. assert (X : In y ((t0 :: tk) ++ y :: l')) by (apply in_or_app; simpl; auto). apply InR in X. tauto.
 Qed.
-
-Lemma firstn_In' {A} (x : A) n l : In x (firstn n l) -> In x l.
-Proof. intros H. rewrite <- (firstn_skipn n l). apply in_or_app. auto. Qed.
-Lemma skipn_In' {A} (x : A) n l : In x (skipn n l) -> In x l.
-Proof. intros H. rewrite <- (firstn_skipn n l). apply in_or_app. auto. Qed.
 
 (** soundness of one call *)
-Lemma scan_core_sound {A} (keyof : A -> bytes) items cursor count pat x :
-  0 <= cursor -> 0 <= count ->
-  In x (snd (scan_core keyof items cursor count pat)) -> In x items /\ scan_inc keyof pat x = true.
+Lemma scan_core_sound items cursor count pat x :
+  0 <= count -> In x (snd (scan_core hf keyof items cursor count pat)) ->
+  In x items /\ scan_inc keyof pat x = true /\ cursor <= hf x.
 Proof.
-  intros Hc Hn. destruct (scan_core_spec keyof items cursor count pat Hc Hn) as [[L E]|[L [j [J1 [J2 E]]]]];
-    rewrite E; simpl; [tauto|].
-  intros H. apply filter_In in H. destruct H as [H I]. split; [|exact I].
-  apply firstn_In' in H. unfold zskipn in H. apply skipn_In' in H. exact H.
+  intros Hc H. destruct (scan_core hf keyof items cursor count pat) as [next res] eqn:E.
+  destruct (scan_core_page _ _ _ _ _ _ Hc E) as [P _]. apply P in H. tauto.
 Qed.
 
-(** ---- iterations ---- *)
-(** [lists] = the sorted item list at each successive call (a static iteration repeats one
-    list); [cnt k] = COUNT of the k-th call.  Result: everything returned, and the list at the
-    call that returned cursor 0 (None = the iteration did not finish within these calls). *)
-Fixpoint iterate {A} (keyof : A -> bytes) (pat : option bytes) (cnt : nat -> Z)
-         (lists : list (list A)) (k : nat) (cursor : Z) : list A * option (list A) :=
+(** ---- iterations: the i-th call on the i-th collection, COUNT [cnt i], cursors chained ---- *)
+Fixpoint iterate (pat : option bytes) (cnt : nat -> Z) (lists : list (list A)) (k : nat) (cursor : Z)
+  : list A * bool :=
   match lists with
-  | [] => ([], None)
+  | [] => ([], false)
   | L :: rest =>
-      match scan_core keyof L cursor (cnt k) pat with
+      match scan_core hf keyof L cursor (cnt k) pat with
       | (next, res) =>
-          if next =? 0 then (res, Some L)
-          else match iterate keyof pat cnt rest (S k) next with
-               | (r, f) => (res ++ r, f)
-               end
+          if next =? 0 then (res, true)
+          else match iterate pat cnt rest (S k) next with (r, f) => (res ++ r, f) end
       end
   end.
 
-(** between two calls the part of the list before the cursor did not change *)
-Fixpoint prefix_stable {A} (keyof : A -> bytes) (pat : option bytes) (cnt : nat -> Z)
-         (lists : list (list A)) (k : nat) (cursor : Z) : Prop :=
-  match lists with
-  | [] => True
-  | L :: rest =>
-      let next := fst (scan_core keyof L cursor (cnt k) pat) in
-      match rest with
-      | [] => True
-      | L' :: _ => zfirstn next L' = zfirstn next L /\ prefix_stable keyof pat cnt rest (S k) next
-      end
-  end.
-
-Lemma filter_firstn_skipn {A} (f : A -> bool) (l : list A) (c j : nat) :
-  filter f (firstn c l) ++ filter f (firstn j (skipn c l)) = filter f (firstn (c + j) l).
+(** completeness over ANY interleaving of additions and deletions: whatever the collections at
+    the successive calls are, an element that is in every one of them and passes the filter is
+    returned by a complete iteration *)
+Lemma iterate_complete pat cnt x : (forall i, 0 <= cnt i) -> scan_inc keyof pat x = true ->
+  forall lists k cursor u, cursor <= hf x ->
+  iterate pat cnt lists k cursor = (u, true) -> (forall L, In L lists -> In x L) -> In x u.
 Proof.
-  rewrite <- filter_app. f_equal. revert l. induction c as [|c IH]; intros l; simpl; [reflexivity|].
-  destruct l as [|x l]; simpl.
-  - rewrite firstn_nil. reflexivity.
-  - rewrite IH. reflexivity.
+  intros Hcnt Hi. induction lists as [|L rest IH]; intros k cursor u Hc H Hall; simpl in H; [discriminate|].
+  destruct (scan_core hf keyof L cursor (cnt k) pat) as [next res] eqn:E.
+  destruct (scan_core_page _ _ _ _ _ _ (Hcnt k) E) as [P _].
+  assert (HL : In x L) by (apply Hall; simpl; auto).
+  destruct (Z.eqb_spec next 0) as [Z0|NZ].
+  - inversion H; subst. apply P. auto.
+  - destruct (iterate pat cnt rest (S k) next) as [r f] eqn:EI. inversion H; subst.
+    apply in_or_app. destruct (Z.lt_ge_cases (hf x) next) as [Lt|Ge].
+    + left. apply P. auto.
+    + right. apply (IH (S k) next r); [lia | exact EI | intros L' HL'; apply Hall; simpl; auto].
 Qed.
 
-Lemma iterate_dyn_spec {A} (keyof : A -> bytes) pat cnt : forall lists k cursor u Lf,
-  0 <= cursor -> (forall i, 0 <= cnt i) ->
-  prefix_stable keyof pat cnt lists k cursor ->
-  iterate keyof pat cnt lists k cursor = (u, Some Lf) ->
-  match lists with
-  | [] => False
-  | L0 :: _ => filter (scan_inc keyof pat) (zfirstn cursor L0) ++ u = filter (scan_inc keyof pat) Lf
-  end.
+(** soundness of an iteration: whatever is returned was in the collection of some call and passes *)
+Lemma iterate_sound pat cnt x : (forall i, 0 <= cnt i) ->
+  forall lists k cursor u f, iterate pat cnt lists k cursor = (u, f) -> In x u ->
+  scan_inc keyof pat x = true /\ exists L, In L lists /\ In x L.
 Proof.
-  induction lists as [|L rest IH]; intros k cursor u Lf Hc Hcnt PS H; simpl in H; [discriminate|].
-  destruct (scan_core_spec keyof L cursor (cnt k) pat Hc (Hcnt k)) as [[Le E]|[Lt [j [J1 [J2 E]]]]].
-  - rewrite E in H. simpl in H. injection H as <- <-. rewrite app_nil_r.
-    unfold zfirstn. rewrite firstn_all2; [reflexivity|]. unfold len in Le. lia.
-  - rewrite E in H.
-    assert (F : filter (scan_inc keyof pat) (zfirstn cursor L) ++
-                filter (scan_inc keyof pat) (firstn j (zskipn cursor L)) =
-                filter (scan_inc keyof pat) (zfirstn (cursor + Z.of_nat j) L)).
-    { unfold zfirstn, zskipn. rewrite filter_firstn_skipn. f_equal. f_equal. lia. }
-    destruct (Z.leb_spec (len L) (cursor + Z.of_nat j)) as [Ge|Lt2].
-    + simpl in H. injection H as <- <-. rewrite F.
-      unfold zfirstn. rewrite firstn_all2; [reflexivity|]. unfold len in Ge. lia.
-    + assert (NZ : (cursor + Z.of_nat j =? 0) = false) by (apply Z.eqb_neq; lia).
-      rewrite NZ in H.
-      destruct (iterate keyof pat cnt rest (S k) (cursor + Z.of_nat j)) as [r f] eqn:EI.
-      injection H as <- ->.
-      simpl in PS. rewrite E in PS. simpl in PS.
-      destruct (Z.leb_spec (len L) (cursor + Z.of_nat j)) as [X|_]; [lia|].
-      destruct rest as [|L' rest']; [simpl in EI; discriminate|].
-      destruct PS as [P1 P2].
-      specialize (IH (S k) (cursor + Z.of_nat j) r Lf ltac:(lia) Hcnt P2 EI). simpl in IH.
-      rewrite app_assoc, F, <- P1. exact IH.
+  intros Hcnt. induction lists as [|L rest IH]; intros k cursor u f H Hx; simpl in H; [inversion H; subst; contradiction|].
+  destruct (scan_core hf keyof L cursor (cnt k) pat) as [next res] eqn:E.
+  destruct (scan_core_page _ _ _ _ _ _ (Hcnt k) E) as [P _].
+  destruct (next =? 0).
+  - inversion H; subst. apply P in Hx. split; [tauto|]. exists L. simpl; tauto.
+  - destruct (iterate pat cnt rest (S k) next) as [r f1] eqn:EI. inversion H; subst.
+    apply in_app_or in Hx. destruct Hx as [Hx|Hx].
+    + apply P in Hx. split; [tauto|]. exists L. simpl; tauto.
+    + destruct (IH _ _ _ _ EI Hx) as [A1 [L' [A2 A3]]]. split; [exact A1|]. exists L'. simpl; auto.
 Qed.
 
-(** every key of the list at the final call that passes the filter was returned *)
-Lemma iterate_dyn_complete {A} (keyof : A -> bytes) pat cnt lists u Lf x :
-  (forall i, 0 <= cnt i) ->
-  prefix_stable keyof pat cnt lists 0 0 ->
-  iterate keyof pat cnt lists 0 0 = (u, Some Lf) ->
-  In x Lf -> scan_inc keyof pat x = true -> In x u.
+(** termination: on an unchanged collection the number of elements not yet covered strictly
+    decreases with every call that does not end the iteration *)
+Lemma scan_core_measure items cursor count pat next res :
+  0 <= count -> scan_core hf keyof items cursor count pat = (next, res) -> next <> 0 ->
+  (length (from_hash hf next (hsort hf keyof items)) < length (from_hash hf cursor (hsort hf keyof items)))%nat.
 Proof.
-  intros Hcnt PS H Hx Hi.
-  pose proof (iterate_dyn_spec keyof pat cnt lists 0 0 u Lf ltac:(lia) Hcnt PS H) as S.
-  destruct lists as [|L0 r]; [contradiction|]. simpl in S.
-  assert (In x (filter (scan_inc keyof pat) Lf)) by (apply filter_In; auto).
-  rewrite <- S in H0. exact H0.
+  intros Hc H NZ. destruct (scan_core_spec items cursor count pat next res Hc H) as [taken [left [E1 [_ [E3 [E4 E5]]]]]].
+  rewrite E5, E1. replace (next =? 0) with false by (symmetry; apply Z.eqb_neq; exact NZ).
+  destruct left as [|y l']; [exfalso; apply NZ; apply E3; reflexivity|].
+  destruct (E4 y l' eq_refl) as [_ [TN _]]. rewrite app_length. destruct taken; [contradiction | simpl; lia].
 Qed.
 
-(** static iteration: the same list at every call *)
-Lemma prefix_stable_repeat {A} (keyof : A -> bytes) pat cnt L : forall n k cursor,
-  prefix_stable keyof pat cnt (repeat L n) k cursor.
+(** static iteration: the same collection at every call.  From any cursor it ends within
+    (number of elements not yet covered) + 1 calls and returns exactly the elements from that
+    hash on that pass the filter, in hash order, each once *)
+Lemma iterate_static pat cnt L : (forall i, 0 <= cnt i) ->
+  forall n k cursor, (length (from_hash hf cursor (hsort hf keyof L)) < n)%nat ->
+  iterate pat cnt (repeat L n) k cursor =
+  (filter (scan_inc keyof pat) (from_hash hf cursor (hsort hf keyof L)), true).
 Proof.
-  induction n as [|n IH]; intros k cursor; simpl; [exact I|].
-  destruct n as [|n]; simpl; [exact I|]. split; [reflexivity|]. apply (IH (S k)).
+  intros Hcnt. induction n as [|n IH]; intros k cursor Hn; [lia|]. simpl.
+  destruct (scan_core hf keyof L cursor (cnt k) pat) as [next res] eqn:E.
+  destruct (scan_core_spec L cursor (cnt k) pat next res (Hcnt k) E) as [taken [left [E1 [E2 [E3 [E4 E5]]]]]].
+  destruct (Z.eqb_spec next 0) as [Z0|NZ].
+  - destruct left as [|y l'].
+    + rewrite E1, app_nil_r, E2. reflexivity.
+    + destruct (E4 y l' eq_refl) as [Ey [TN B]]. exfalso.
+      destruct taken as [|t0 tk]; [contradiction|]. pose proof (B t0 (or_introl eq_refl)). pose proof (hf_nonneg t0). lia.
+  - pose proof (scan_core_measure _ _ _ _ _ _ (Hcnt k) E NZ) as M.
+    rewrite (IH (S k) next) by lia. rewrite E5.
+    replace (next =? 0) with false by (symmetry; apply Z.eqb_neq; exact NZ).
+    rewrite E1, filter_app, E2. reflexivity.
 Qed.
+End Core.
 
-Lemma iterate_static_finishes {A} (keyof : A -> bytes) pat cnt L :
-  (forall i, 0 <= cnt i) -> forall n k cursor, 0 <= cursor ->
-  (Z.to_nat (len L - cursor) < n)%nat ->
-  exists u, iterate keyof pat cnt (repeat L n) k cursor = (u, Some L).
-Proof.
-  intros Hcnt. induction n as [|n IH]; intros k cursor Hc Hn; [lia|]. simpl.
-  destruct (scan_core_spec keyof L cursor (cnt k) pat Hc (Hcnt k)) as [[Le E]|[Lt [j [J1 [J2 E]]]]];
-    rewrite E.
-  - simpl. eauto.
-  - destruct (Z.leb_spec (len L) (cursor + Z.of_nat j)) as [Ge|Lt2]; [simpl; eauto|].
-    assert (NZ : (cursor + Z.of_nat j =? 0) = false) by (apply Z.eqb_neq; lia). rewrite NZ.
-    destruct (IH (S k) (cursor + Z.of_nat j) ltac:(lia) ltac:(lia)) as [u E2]. rewrite E2. eauto.
-Qed.
+(** ---- the executed variant computes each hash once ---- *)
+Section Cached.
+Context {A : Type} (hf : A -> Z) (keyof : A -> bytes).
+Let dec (x : A) : Z * A := (hf x, x).
+Let hf' (p : Z * A) : Z := fst p.
+Let keyof' (p : Z * A) : bytes := keyof (snd p).
 
-(** static completeness: a full iteration over an unchanged list, with any COUNTs, ends within
-    |L| + 1 calls and returns exactly the items that pass the filter, in order, each once *)
-Lemma iterate_static {A} (keyof : A -> bytes) pat cnt L :
-  (forall i, 0 <= cnt i) ->
-  iterate keyof pat cnt (repeat L (S (length L))) 0 0 = (filter (scan_inc keyof pat) L, Some L).
+Lemma hleb_dec x y : hleb hf' keyof' (dec x) (dec y) = hleb hf keyof x y.
+Proof. reflexivity. Qed.
+Lemma hinsert_dec x l : hinsert hf' keyof' (dec x) (map dec l) = map dec (hinsert hf keyof x l).
 Proof.
-  intros Hcnt.
-  destruct (iterate_static_finishes keyof pat cnt L Hcnt (S (length L)) 0%nat 0 ltac:(lia)) as [u E].
-  { unfold len. lia. }
-  rewrite E. f_equal.
-  pose proof (iterate_dyn_spec keyof pat cnt _ 0%nat 0 u L ltac:(lia) Hcnt
-                (prefix_stable_repeat keyof pat cnt L _ _ _) E) as S.
-  simpl in S. exact S.
+  induction l as [|y l IH]; [reflexivity|].
+  cbn [map hinsert]. rewrite hleb_dec. destruct (hleb hf keyof x y); cbn [map]; [reflexivity|]. f_equal. exact IH.
 Qed.
+Lemma hsort_dec l : hsort hf' keyof' (map dec l) = map dec (hsort hf keyof l).
+Proof.
+  unfold hsort. induction l as [|y l IH]; simpl; [reflexivity|]. rewrite IH. apply hinsert_dec.
+Qed.
+Lemma from_hash_dec c l : from_hash hf' c (map dec l) = map dec (from_hash hf c l).
+Proof.
+  induction l as [|y l IH]; [reflexivity|]. cbn [map from_hash].
+  change (hf' (dec y)) with (hf y). destruct (hf y <? c); [exact IH | reflexivity].
+Qed.
+Lemma page_walk_dec pat : forall l prev e m limE limM,
+  page_walk hf' (scan_inc keyof' pat) (map dec l) prev e m limE limM =
+  match page_walk hf (scan_inc keyof pat) l prev e m limE limM with (res, rm) => (map dec res, map dec rm) end.
+Proof.
+  induction l as [|x l IH]; intros prev e m limE limM; [reflexivity|]. cbn [map page_walk].
+  change (hf' (dec x)) with (hf x). change (scan_inc keyof' pat (dec x)) with (scan_inc keyof pat x).
+  destruct ((e <? limE) && (m <? limM) || match prev with Some h => hf x =? h | None => false end); [|reflexivity].
+  rewrite IH. destruct (page_walk hf (scan_inc keyof pat) l (Some (hf x)) (e + 1) (if scan_inc keyof pat x then m + 1 else m) limE limM) as [res rm].
+  destruct (scan_inc keyof pat x); reflexivity.
+Qed.
+Lemma scan_core_cached_eq items cursor count pat :
+  scan_core_cached hf keyof items cursor count pat = scan_core hf keyof items cursor count pat.
+Proof.
+  unfold scan_core_cached, scan_core.
+  pose proof (hsort_dec items) as E1. pose proof (from_hash_dec cursor (hsort hf keyof items)) as E2.
+  unfold hf', keyof', dec in E1, E2. rewrite E1, E2.
+  destruct (from_hash hf cursor (hsort hf keyof items)) as [|x0 rest0]; [reflexivity|].
+  pose proof (page_walk_dec pat (x0 :: rest0) None 0 0 (scan_limit count * 10) (scan_limit count)) as E3.
+  unfold hf', keyof', dec in E3. cbn [map] in *. rewrite E3.
+  destruct (page_walk hf (scan_inc keyof pat) (x0 :: rest0) None 0 0 (scan_limit count * 10) (scan_limit count)) as [res rm].
+  rewrite map_map. cbn [snd]. rewrite map_id. destruct rm; reflexivity.
+Qed.
+End Cached.
 
-(** ---- sorting ---- *)
-Lemma In_binsert x y l : In x (binsert y l) <-> x = y \/ In x l.
+(** ---- fnv1a is a 64-bit value ---- *)
+Lemma fnv1a_range k : 0 <= fnv1a k < two64.
 Proof.
-  induction l as [|z l IH]; simpl; [intuition congruence|].
-  destruct (bleb y z); simpl; [intuition congruence|]. rewrite IH. intuition congruence.
+  unfold fnv1a. assert (G : forall l h, 0 <= h < two64 -> 0 <= fold_left (fun h b => (Z.lxor h b * fnv_prime) mod two64) l h < two64).
+  { induction l as [|b l IH]; intros h Hh; simpl; [exact Hh|]. apply IH. apply Z.mod_pos_bound. unfold two64. lia. }
+  apply G. unfold fnv_offset, two64. lia.
 Qed.
-Lemma In_bsort x l : In x (bsort l) <-> In x l.
-Proof.
-  unfold bsort. induction l as [|y l IH]; simpl; [tauto|]. rewrite In_binsert, IH. intuition congruence.
-Qed.
-Lemma NoDup_binsert y l : NoDup l -> ~ In y l -> NoDup (binsert y l).
-Proof.
-  induction l as [|z l IH]; simpl; intros H N; [constructor; [simpl; tauto | constructor]|].
-  destruct (bleb y z); [constructor; assumption|].
-  inversion H; subst. constructor; [rewrite In_binsert; intros [X|X]; [subst; tauto | contradiction]|].
-  apply IH; tauto.
-Qed.
-Lemma NoDup_bsort l : NoDup l -> NoDup (bsort l).
-Proof.
-  unfold bsort. induction 1 as [|y l N D IH]; simpl; [constructor|].
-  apply NoDup_binsert; [exact IH|]. fold (bsort l). rewrite In_bsort. exact N.
-Qed.
+Lemma key_hash_nonneg k : 0 <= key_hash k.
+Proof. apply fnv1a_range. Qed.
+Lemma pair_hash_nonneg {B} (kv : bytes * B) : 0 <= pair_hash kv.
+Proof. apply fnv1a_range. Qed.
 
 (** ---- SCAN on a database ---- *)
 Definition key_visible (now : Z) (d : db) (tf : option bytes) (k : bytes) : Prop :=
   exists e, In (k, e) (d_data d) /\ scan_visible now tf (k, e) = true.
+Definition key_matches (pat : option bytes) (k : bytes) : bool := scan_inc (fun k => k) pat k.
 
 Lemma live_keys_In now d tf k : In k (live_keys now d tf) <-> key_visible now d tf k.
 Proof.
-  unfold live_keys, key_visible. rewrite In_bsort, in_map_iff. split.
+  unfold live_keys, key_visible. rewrite in_map_iff. split.
   - intros [[k' e] [E H]]. simpl in E. subst k'. apply filter_In in H. exists e. exact H.
   - intros [e H]. exists (k, e). split; [reflexivity | apply filter_In; exact H].
 Qed.
@@ -248,249 +400,95 @@ Proof.
   apply in_map_iff. exists y. tauto.
 Qed.
 Lemma live_keys_NoDup now d tf : NoDup (map fst (d_data d)) -> NoDup (live_keys now d tf).
-Proof. intros H. apply NoDup_bsort, NoDup_map_filter. exact H. Qed.
+Proof. intros H. apply NoDup_map_filter. exact H. Qed.
 
-Definition key_matches (pat : option bytes) (k : bytes) : bool := scan_inc (fun k => k) pat k.
+Lemma eng_scan_eq now d cursor pat tf count :
+  eng_scan now d cursor pat tf count = scan_core key_hash (fun k => k) (live_keys now d tf) cursor count pat.
+Proof. apply scan_core_cached_eq. Qed.
 
-(** a full SCAN iteration on an unchanged database, any COUNT at each call *)
-Definition scan_static (now : Z) (d : db) (pat tf : option bytes) (cnt : nat -> Z) : list bytes * option (list bytes) :=
-  iterate (fun k => k) pat cnt (repeat (live_keys now d tf) (S (length (live_keys now d tf)))) 0 0.
-
-Lemma scan_static_complete now d pat tf cnt :
-  (forall i, 0 <= cnt i) -> NoDup (map fst (d_data d)) ->
-  exists keys, scan_static now d pat tf cnt = (keys, Some (live_keys now d tf)) /\ NoDup keys /\
-    forall k, In k keys <-> key_visible now d tf k /\ key_matches pat k = true.
+(** one SCAN call: exactly the visible keys of one hash interval that match; next cursor 0 or above *)
+Lemma eng_scan_page now d cursor pat tf count next keys :
+  0 <= count -> eng_scan now d cursor pat tf count = (next, keys) ->
+  (forall k, In k keys <-> key_visible now d tf k /\ key_matches pat k = true /\
+                          cursor <= key_hash k /\ (next = 0 \/ key_hash k < next)) /\
+  (next = 0 \/ (cursor < next /\ exists k, key_visible now d tf k /\ key_hash k = next)).
 Proof.
-  intros Hcnt ND. unfold scan_static. rewrite (iterate_static _ _ _ _ Hcnt).
-  eexists. split; [reflexivity|]. split.
-  - apply NoDup_filter. apply live_keys_NoDup. exact ND.
-  - intros k. rewrite filter_In, live_keys_In. reflexivity.
+  intros Hc H. rewrite eng_scan_eq in H.
+  destruct (scan_core_page key_hash (fun k => k) key_hash_nonneg _ _ _ _ _ _ Hc H) as [P Q]. split.
+  - intros k. rewrite P, live_keys_In. reflexivity.
+  - destruct Q as [Q|[Q1 [y [Q2 Q3]]]]; [auto|]. right. split; [exact Q1|]. exists y. rewrite <- live_keys_In. auto.
 Qed.
 
-Lemma eng_scan_sound now d cursor pat tf count k :
-  0 <= cursor -> 0 <= count ->
-  In k (snd (eng_scan now d cursor pat tf count)) -> key_visible now d tf k /\ key_matches pat k = true.
-Proof.
-  intros Hc Hn H. apply scan_core_sound in H; [|exact Hc|exact Hn].
-  rewrite live_keys_In in H. exact H.
-Qed.
+(** a SCAN iteration across arbitrary database states: [states] = (time, database) at each call *)
+Definition scan_iter (states : list (Z * db)) (pat tf : option bytes) (cnt : nat -> Z) : list bytes * bool :=
+  iterate key_hash (fun k => k) pat cnt (map (fun st => live_keys (fst st) (snd st) tf) states) 0 0.
 
-(** a SCAN iteration across changing databases: [states] = (time, database) at each call *)
-Definition scan_dynamic (states : list (Z * db)) (pat tf : option bytes) (cnt : nat -> Z) :=
-  iterate (fun k => k) pat cnt (map (fun st => live_keys (fst st) (snd st) tf) states) 0 0.
-Definition scan_prefix_stable (states : list (Z * db)) (pat tf : option bytes) (cnt : nat -> Z) : Prop :=
-  prefix_stable (fun k => k) pat cnt (map (fun st => live_keys (fst st) (snd st) tf) states) 0 0.
-
-Lemma scan_dynamic_partial states pat tf cnt keys Lf k :
-  (forall i, 0 <= cnt i) -> scan_prefix_stable states pat tf cnt ->
-  scan_dynamic states pat tf cnt = (keys, Some Lf) ->
+Lemma scan_iter_complete states pat tf cnt keys k :
+  (forall i, 0 <= cnt i) -> scan_iter states pat tf cnt = (keys, true) ->
   (forall st, In st states -> key_visible (fst st) (snd st) tf k) -> key_matches pat k = true ->
   In k keys.
 Proof.
-  intros Hcnt PS H Hv Hm.
-  eapply iterate_dyn_complete; try eassumption.
-  (* the final list is one of the lists *)
-  assert (FL : forall (lists : list (list bytes)) kk c u L,
-             iterate (fun k => k) pat cnt lists kk c = (u, Some L) -> In L lists).
-  { induction lists as [|L0 r IH]; intros kk c u L X; simpl in X; [discriminate|].
-    destruct (scan_core (fun k => k) L0 c (cnt kk) pat) as [next res].
-    destruct (next =? 0); [injection X as _ <-; simpl; auto|].
-    destruct (iterate (fun k => k) pat cnt r (S kk) next) as [r1 f] eqn:E. injection X as _ ->.
-    right. eapply IH. exact E. }
-  apply FL in H. apply in_map_iff in H. destruct H as [st [<- Hst]].
-  apply live_keys_In. apply Hv. exact Hst.
+  intros Hcnt H Hv Hm. unfold scan_iter in H.
+  eapply (iterate_complete key_hash (fun k => k) key_hash_nonneg pat cnt k Hcnt Hm); [apply key_hash_nonneg | exact H|].
+  intros L HL. apply in_map_iff in HL. destruct HL as [st [<- Hst]]. apply live_keys_In. apply Hv. exact Hst.
+Qed.
+Lemma scan_iter_sound states pat tf cnt keys f k :
+  (forall i, 0 <= cnt i) -> scan_iter states pat tf cnt = (keys, f) -> In k keys ->
+  key_matches pat k = true /\ exists st, In st states /\ key_visible (fst st) (snd st) tf k.
+Proof.
+  intros Hcnt H Hk. unfold scan_iter in H.
+  destruct (iterate_sound key_hash (fun k => k) key_hash_nonneg pat cnt k Hcnt _ _ _ _ _ H Hk) as [A1 [L [A2 A3]]].
+  split; [exact A1|]. apply in_map_iff in A2. destruct A2 as [st [<- Hst]]. exists st. split; [exact Hst | apply live_keys_In; exact A3].
 Qed.
 
-(** ---- SSCAN on an unchanged set ---- *)
+(** an unchanged database: every matching visible key exactly once, within |keys| + 1 calls *)
+Lemma scan_static now d pat tf cnt :
+  (forall i, 0 <= cnt i) -> NoDup (map fst (d_data d)) ->
+  let L := live_keys now d tf in
+  exists keys, iterate key_hash (fun k => k) pat cnt (repeat L (S (length L))) 0 0 = (keys, true) /\
+    NoDup keys /\ forall k, In k keys <-> key_visible now d tf k /\ key_matches pat k = true.
+Proof.
+  intros Hcnt ND L.
+  assert (F0 : from_hash key_hash 0 (hsort key_hash (fun k => k) L) = hsort key_hash (fun k => k) L).
+  { generalize (hsort key_hash (fun k => k) L). induction l as [|y r IH]; simpl; [reflexivity|].
+    pose proof (key_hash_nonneg y). destruct (Z.ltb_spec (key_hash y) 0); [lia | reflexivity]. }
+  eexists. split.
+  - apply (iterate_static key_hash (fun k => k) key_hash_nonneg pat cnt L Hcnt).
+    rewrite F0. rewrite (Permutation_length (hsort_perm key_hash (fun k => k) L)). lia.
+  - rewrite F0. split.
+    + apply NoDup_filter. eapply Permutation_NoDup; [symmetry; apply hsort_perm|]. apply live_keys_NoDup. exact ND.
+    + intros k. rewrite filter_In, In_hsort. unfold L. rewrite live_keys_In. reflexivity.
+Qed.
+
+(** ---- SSCAN / HSCAN / ZSCAN on a live collection: fast path or the same page logic ---- *)
 Lemma eng_sscan_live now d key s cursor pat count :
   get_entry d key = Some {| e_val := VSet s; e_exp := None |} ->
   eng_sscan now d key cursor pat count =
-  (Some (if (len s <=? scan_limit count) && (cursor =? 0) && negb (match pat with Some _ => true | None => false end)
-         then (0, bsort s) else scan_core (fun m => m) (bsort s) cursor count pat), d).
+  (Some (if (len s <=? scan_limit count) && (cursor =? 0) && no_pat pat
+         then (0, bsort s) else scan_core key_hash (fun m => m) s cursor count pat), d).
 Proof.
   intros H. unfold eng_sscan, eng_get. rewrite H. unfold expired. simpl.
-  destruct ((len s <=? scan_limit count) && (cursor =? 0) && negb (match pat with Some _ => true | None => false end)); reflexivity.
+  destruct ((len s <=? scan_limit count) && (cursor =? 0) && no_pat pat); [reflexivity|].
+  rewrite scan_core_cached_eq. reflexivity.
 Qed.
-
-(** ---- order on byte strings; sorted duplicate-free lists ---- *)
-Lemma bcmp_refl a : bcmp a a = Eq.
-Proof. induction a as [|x a IH]; simpl; [reflexivity|]. rewrite Z.compare_refl. exact IH. Qed.
-Lemma bcmp_eq : forall a b, bcmp a b = Eq -> a = b.
+Lemma eng_hscan_live now d key h cursor pat count nov :
+  get_entry d key = Some {| e_val := VHash h; e_exp := None |} ->
+  eng_hscan now d key cursor pat count nov =
+  (Some (if (len h <=? scan_limit count) && (cursor =? 0) && no_pat pat
+         then (0, flat_pairs nov (psort h))
+         else (fst (scan_core pair_hash fst h cursor count pat), flat_pairs nov (snd (scan_core pair_hash fst h cursor count pat)))), d).
 Proof.
-  induction a as [|x a IH]; intros [|y b]; simpl; try discriminate; [reflexivity|].
-  destruct (x ?= y) eqn:E; try discriminate. apply Z.compare_eq in E. subst y.
-  intros H. f_equal. apply IH. exact H.
+  intros H. unfold eng_hscan, eng_get. rewrite H. unfold expired. simpl.
+  destruct ((len h <=? scan_limit count) && (cursor =? 0) && no_pat pat); [reflexivity|].
+  rewrite scan_core_cached_eq. destruct (scan_core pair_hash fst h cursor count pat). reflexivity.
 Qed.
-Lemma bcmp_antisym : forall a b, bcmp b a = CompOpp (bcmp a b).
+Lemma eng_zscan_live now d key z cursor pat count :
+  get_entry d key = Some {| e_val := VZSet z; e_exp := None |} ->
+  eng_zscan now d key cursor pat count =
+  (Some (if (len z <=? scan_limit count) && (cursor =? 0) && no_pat pat
+         then (0, psort z) else scan_core pair_hash fst z cursor count pat), d).
 Proof.
-  induction a as [|x a IH]; intros [|y b]; simpl; try reflexivity.
-  rewrite (Z.compare_antisym x y). destruct (x ?= y); simpl; auto.
-Qed.
-Lemma bcmp_lt_trans : forall a b c, bcmp a b = Lt -> bcmp b c = Lt -> bcmp a c = Lt.
-Proof.
-  induction a as [|x a IH]; intros [|y b] [|z c]; simpl; try discriminate; try reflexivity.
-  destruct (x ?= y) eqn:E1; try discriminate; destruct (y ?= z) eqn:E2; try discriminate; intros H1 H2.
-  - apply Z.compare_eq in E1, E2. subst. rewrite Z.compare_refl. eapply IH; eassumption.
-  - apply Z.compare_eq in E1. subst. rewrite E2. reflexivity.
-  - apply Z.compare_eq in E2. subst. rewrite E1. reflexivity.
-  - rewrite Z.compare_lt_iff in *. assert (x < z) by lia. apply Z.compare_lt_iff in H. rewrite H. reflexivity.
-Qed.
-Lemma bltb_trans a b c : bltb a b = true -> bltb b c = true -> bltb a c = true.
-Proof.
-  unfold bltb. destruct (bcmp a b) eqn:E1; try discriminate. destruct (bcmp b c) eqn:E2; try discriminate.
-  rewrite (bcmp_lt_trans _ _ _ E1 E2). reflexivity.
-Qed.
-Lemma bltb_irrefl a : bltb a a = false.
-Proof. unfold bltb. rewrite bcmp_refl. reflexivity. Qed.
-Lemma bleb_false_lt a b : bleb a b = false -> bltb b a = true.
-Proof. unfold bleb, bltb. rewrite (bcmp_antisym a b). destruct (bcmp a b); simpl; congruence. Qed.
-Lemma bleb_true_lt a b : bleb a b = true -> a <> b -> bltb a b = true.
-Proof.
-  unfold bleb, bltb. destruct (bcmp a b) eqn:E; try congruence. apply bcmp_eq in E. congruence.
-Qed.
-
-Definition BSorted (l : list bytes) : Prop := StronglySorted (fun a b => bltb a b = true) l.
-
-Lemma binsert_sorted x l : BSorted l -> ~ In x l -> BSorted (binsert x l).
-Proof.
-  induction 1 as [|y r S IH F]; simpl; intros N.
-  - constructor; constructor.
-  - destruct (bleb x y) eqn:E.
-    + assert (L : bltb x y = true) by (apply bleb_true_lt; [exact E | intros ->; apply N; simpl; auto]).
-      constructor; [constructor; assumption|]. constructor; [exact L|].
-      rewrite Forall_forall in *. intros z Hz. eapply bltb_trans; [exact L | apply F; exact Hz].
-    + apply bleb_false_lt in E. constructor; [apply IH; intros X; apply N; simpl; auto|].
-      rewrite Forall_forall in *. intros z Hz. apply In_binsert in Hz. destruct Hz as [->|Hz]; [exact E | apply F; exact Hz].
-Qed.
-Lemma bsort_sorted l : NoDup l -> BSorted (bsort l).
-Proof.
-  unfold bsort. induction 1 as [|y l N D IH]; simpl; [constructor|].
-  apply binsert_sorted; [exact IH|]. fold (bsort l). rewrite In_bsort. exact N.
-Qed.
-
-Lemma sorted_ext : forall l1 l2, BSorted l1 -> BSorted l2 -> (forall x, In x l1 <-> In x l2) -> l1 = l2.
-Proof.
-  induction l1 as [|a l1 IH]; intros l2 S1 S2 H.
-  - destruct l2 as [|b l2]; [reflexivity|]. exfalso. apply (H b). simpl. auto.
-  - destruct l2 as [|b l2]; [exfalso; apply (H a); simpl; auto|].
-    inversion S1 as [|? ? S1' F1]; inversion S2 as [|? ? S2' F2]; subst.
-    rewrite Forall_forall in F1, F2.
-    assert (a = b).
-    { destruct (proj1 (H a) (or_introl eq_refl)) as [E|E]; [congruence|].
-      destruct (proj2 (H b) (or_introl eq_refl)) as [E2|E2]; [congruence|].
-      pose proof (F2 _ E) as X. pose proof (F1 _ E2) as Y.
-      pose proof (bltb_trans _ _ _ X Y) as Z. rewrite bltb_irrefl in Z. discriminate. }
-    subst b. f_equal. apply IH; [assumption | assumption|].
-    intros x. split; intros Hx.
-    + destruct (proj1 (H x) (or_intror Hx)) as [E|E]; [|exact E].
-      subst x. pose proof (F1 _ Hx) as X. rewrite bltb_irrefl in X. discriminate.
-    + destruct (proj2 (H x) (or_intror Hx)) as [E|E]; [|exact E].
-      subst x. pose proof (F2 _ Hx) as X. rewrite bltb_irrefl in X. discriminate.
-Qed.
-
-Lemma filter_sorted f l : BSorted l -> BSorted (filter f l).
-Proof.
-  induction 1 as [|y r S IH F]; simpl; [constructor|].
-  destruct (f y); [|exact IH]. constructor; [exact IH|].
-  rewrite Forall_forall in *. intros z Hz. apply filter_In in Hz. apply F. tauto.
-Qed.
-
-(** the keys below the key at position p are exactly the first p *)
-Lemma sorted_below_nth : forall l p b, BSorted l -> nth_error l p = Some b ->
-  filter (fun x => bltb x b) l = firstn p l.
-Proof.
-  induction l as [|y r IH]; intros p b S H; [destruct p; discriminate|].
-  inversion S as [|? ? S' F]; subst. rewrite Forall_forall in F.
-  destruct p as [|p]; simpl in H.
-  - injection H as ->. simpl. rewrite bltb_irrefl.
-    assert (E : filter (fun x => bltb x b) r = []).
-    { clear -F. induction r as [|z r IH]; simpl; [reflexivity|].
-      assert (X : bltb z b = false).
-      { destruct (bltb z b) eqn:E; [|reflexivity]. pose proof (F z (or_introl eq_refl)) as Y.
-        pose proof (bltb_trans _ _ _ E Y) as Z. rewrite bltb_irrefl in Z. discriminate. }
-      rewrite X. apply IH. intros w Hw. apply F. simpl. auto. }
-    exact E.
-  - simpl. assert (In b r) by (eapply nth_error_In; exact H).
-    rewrite (F _ H0). f_equal. apply IH; assumption.
-Qed.
-
-(** if the two lists have the same keys below b = L[p], their first p entries coincide *)
-Lemma sorted_prefix_stable L L' p b :
-  BSorted L -> BSorted L' -> nth_error L p = Some b ->
-  (forall x, bltb x b = true -> (In x L <-> In x L')) ->
-  firstn p L' = firstn p L.
-Proof.
-  intros S S' Hn H.
-  assert (E : filter (fun x => bltb x b) L' = filter (fun x => bltb x b) L).
-  { apply sorted_ext; try (apply filter_sorted; assumption).
-    intros x. rewrite !filter_In. split; intros [A B]; (split; [apply (H x B); exact A | exact B]). }
-  rewrite (sorted_below_nth L p b S Hn) in E.
-  (* the keys of L' below b form a prefix of L' of the same length *)
-  assert (P : forall l, BSorted l -> filter (fun x => bltb x b) l = firstn (length (filter (fun x => bltb x b) l)) l).
-  { induction l as [|y r IH]; intros Sl; simpl; [reflexivity|].
-    inversion Sl as [|? ? Sr F]; subst. rewrite Forall_forall in F.
-    destruct (bltb y b) eqn:Y; simpl; [f_equal; apply IH; exact Sr|].
-    assert (X : filter (fun x => bltb x b) r = []).
-    { clear -F Y. induction r as [|z r IH]; simpl; [reflexivity|].
-      assert (Z : bltb z b = false).
-      { destruct (bltb z b) eqn:E; [|reflexivity]. pose proof (F z (or_introl eq_refl)) as W.
-        pose proof (bltb_trans _ _ _ W E) as V. congruence. }
-      rewrite Z. apply IH. intros w Hw. apply F. simpl. auto. }
-    rewrite X. reflexivity. }
-  pose proof (P L' S') as Q. rewrite E in Q.
-  assert (LP : length (firstn p L) = p).
-  { apply firstn_length_le. apply Nat.lt_le_incl. apply nth_error_Some. congruence. }
-  rewrite LP in Q. symmetry. exact Q.
-Qed.
-
-(** the hypothesis of DESIGN's c19_concurrent_partial: between two calls, every key that was
-    added or removed sorts at or after the key at the cursor *)
-Fixpoint order_stable (pat : option bytes) (cnt : nat -> Z) (lists : list (list bytes)) (k : nat) (cursor : Z) : Prop :=
-  match lists with
-  | [] => True
-  | L :: rest =>
-      let next := fst (scan_core (fun x => x) L cursor (cnt k) pat) in
-      match rest with
-      | [] => True
-      | L' :: _ =>
-          (forall b, znth next L = Some b -> forall x, bltb x b = true -> (In x L <-> In x L')) /\
-          order_stable pat cnt rest (S k) next
-      end
-  end.
-
-Lemma order_stable_prefix pat cnt : forall lists k cursor,
-  (forall i, 0 <= cnt i) -> 0 <= cursor -> Forall BSorted lists ->
-  order_stable pat cnt lists k cursor -> prefix_stable (fun x => x) pat cnt lists k cursor.
-Proof.
-  induction lists as [|L rest IH]; intros k cursor Hcnt Hc FS OS; simpl; [exact I|].
-  destruct rest as [|L' rest']; [exact I|].
-  simpl in OS. destruct OS as [O1 O2].
-  inversion FS as [|? ? SL FS']; subst. inversion FS' as [|? ? SL' _]; subst.
-  pose proof (scan_core_progress (fun x => x) L cursor (cnt k) pat Hc (Hcnt k)) as Pg. simpl in Pg.
-  set (next := fst (scan_core (fun x => x) L cursor (cnt k) pat)) in *.
-  split.
-  - destruct Pg as [Z0|[P1 P2]]; [rewrite Z0; reflexivity|].
-    unfold zfirstn.
-    assert (HN : exists b, nth_error L (Z.to_nat next) = Some b).
-    { destruct (nth_error L (Z.to_nat next)) eqn:E; [eauto|]. apply nth_error_None in E. unfold len in P2. lia. }
-    destruct HN as [b Hb].
-    apply (sorted_prefix_stable L L' _ b SL SL' Hb).
-    apply O1. unfold znth. destruct (Z.ltb_spec next 0); [lia | exact Hb].
-  - apply IH; try assumption. destruct Pg; lia.
-Qed.
-
-Definition scan_order_stable (states : list (Z * db)) (pat tf : option bytes) (cnt : nat -> Z) : Prop :=
-  order_stable pat cnt (map (fun st => live_keys (fst st) (snd st) tf) states) 0 0.
-
-Lemma scan_dynamic_partial_order states pat tf cnt keys Lf k :
-  (forall i, 0 <= cnt i) -> (forall st, In st states -> NoDup (map fst (d_data (snd st)))) ->
-  scan_order_stable states pat tf cnt ->
-  scan_dynamic states pat tf cnt = (keys, Some Lf) ->
-  (forall st, In st states -> key_visible (fst st) (snd st) tf k) -> key_matches pat k = true ->
-  In k keys.
-Proof.
-  intros Hcnt ND OS. apply scan_dynamic_partial; [exact Hcnt|].
-  apply order_stable_prefix; try assumption; [lia|].
-  apply Forall_forall. intros L HL. apply in_map_iff in HL. destruct HL as [st [<- Hst]].
-  apply bsort_sorted, NoDup_map_filter, ND. exact Hst.
+  intros H. unfold eng_zscan, eng_get. rewrite H. unfold expired. simpl.
+  destruct ((len z <=? scan_limit count) && (cursor =? 0) && no_pat pat); [reflexivity|].
+  rewrite scan_core_cached_eq. reflexivity.
 Qed.
